@@ -25,6 +25,9 @@ enum Entry {
     Arrow,
     Parquet,
     ParquetTensor,
+    /// save_parquet_tensor called with an element-type argument that is not the tensor's own
+    /// (float tensors of the other width, integer tensors): success is still a promise
+    ParquetTensorOtherT,
 }
 const ENTRIES: [Entry; 5] = [Entry::Csv, Entry::CsvTensor, Entry::Arrow, Entry::Parquet, Entry::ParquetTensor];
 
@@ -203,7 +206,15 @@ fn one(rep: &mut Report, mon: &str, case: u64, g: &mut Sm64, ctx: &Ctx, entry: E
     let path = format!("{}/c17_{}_{}.out", ctx.scratch, case, g.next_u64());
     let layout = if matches!(entry, Entry::Csv | Entry::Arrow | Entry::Parquet) { LAYOUTS[g.below(4)] } else { Layout::Standard };
     rep.count(&format!("layout[{layout:?}]"));
-    let cfg = json!({"entry": format!("{entry:?}"), "type": format!("{ty:?}"), "shape": [a, b, c], "encoded_cells": encode, "memory_layout": format!("{layout:?}")});
+    // element-type argument for the OtherT entry: never the tensor's own element type
+    let other_t = loop {
+        let k = g.below(6);
+        if !((ty == Ty::F32 && k == 0) || (ty == Ty::F64 && k == 1)) {
+            break k;
+        }
+    };
+    let cfg = json!({"entry": format!("{entry:?}"), "type": format!("{ty:?}"),
+        "element_type_argument": if entry == Entry::ParquetTensorOtherT { ["f32", "f64", "i32", "u8", "i16", "u32"][other_t] } else { "the tensor's own" }, "shape": [a, b, c], "encoded_cells": encode, "memory_layout": format!("{layout:?}")});
     let sig = format!("{entry:?}");
     // sometimes the target file already exists with longer, unrelated content: it must be replaced
     if g.chance(0.3) {
@@ -243,6 +254,34 @@ fn one(rep: &mut Report, mon: &str, case: u64, g: &mut Sm64, ctx: &Ctx, entry: E
                 let t = Tensor::<NdArray<f64>, 3>::from_data(TensorData::new(vals.clone(), [a, b, c]), &Default::default());
                 save_parquet_tensor::<NdArray<f64>, _, f64>(&t, &path)
             }
+            (Entry::ParquetTensorOtherT, _) => {
+                macro_rules! with_t {
+                    ($t:expr) => {
+                        match other_t {
+                            0 => save_parquet_tensor::<_, _, f32>($t, &path),
+                            1 => save_parquet_tensor::<_, _, f64>($t, &path),
+                            2 => save_parquet_tensor::<_, _, i32>($t, &path),
+                            3 => save_parquet_tensor::<_, _, u8>($t, &path),
+                            4 => save_parquet_tensor::<_, _, i16>($t, &path),
+                            _ => save_parquet_tensor::<_, _, u32>($t, &path),
+                        }
+                    };
+                }
+                match ty {
+                    Ty::F32 => {
+                        let t = Tensor::<NdArray<f32>, 3>::from_data(TensorData::new(vals.iter().map(|x| *x as f32).collect::<Vec<f32>>(), [a, b, c]), &Default::default());
+                        with_t!(&t)
+                    }
+                    Ty::F64 => {
+                        let t = Tensor::<NdArray<f64>, 3>::from_data(TensorData::new(vals.clone(), [a, b, c]), &Default::default());
+                        with_t!(&t)
+                    }
+                    _ => {
+                        let t = Tensor::<NdArray<f32>, 3, burn::tensor::Int>::from_data(TensorData::new(vals.iter().map(|x| *x as i32 as i64).collect::<Vec<i64>>(), [a, b, c]), &Default::default());
+                        with_t!(&t)
+                    }
+                }
+            }
             _ => unreachable!(),
         }
         .map_err(|e| format!("{e}"))
@@ -253,7 +292,7 @@ fn one(rep: &mut Report, mon: &str, case: u64, g: &mut Sm64, ctx: &Ctx, entry: E
     match wrote {
         Err(m) => {
             // a panic inside burn while *building* an empty tensor is not the library's doing
-            if (a == 0 || b == 0 || c == 0) && matches!(entry, Entry::CsvTensor | Entry::ParquetTensor) && !m.contains("mini") {
+            if (a == 0 || b == 0 || c == 0) && matches!(entry, Entry::CsvTensor | Entry::ParquetTensor | Entry::ParquetTensorOtherT) && !m.contains("mini") {
                 rep.inconclusive("burn could not build the empty input tensor");
                 cleanup();
                 return;
@@ -286,7 +325,7 @@ fn one(rep: &mut Report, mon: &str, case: u64, g: &mut Sm64, ctx: &Ctx, entry: E
         .collect();
     // read back
     let (names, outer_is_first_label) = match entry {
-        Entry::ParquetTensor => (("observation", "chain"), true),
+        Entry::ParquetTensor | Entry::ParquetTensorOtherT => (("observation", "chain"), true),
         _ => (("chain", "observation"), true),
     };
     let _ = outer_is_first_label;
@@ -298,7 +337,7 @@ fn one(rep: &mut Report, mon: &str, case: u64, g: &mut Sm64, ctx: &Ctx, entry: E
             let batches: Vec<RecordBatch> = rdr.collect::<Result<_, _>>().map_err(|e| format!("arrow batch: {e}"))?;
             read_batches(batches, names, c)
         }
-        Entry::Parquet | Entry::ParquetTensor => {
+        Entry::Parquet | Entry::ParquetTensor | Entry::ParquetTensorOtherT => {
             let f = File::open(&path).map_err(|e| format!("open: {e}"))?;
             let rdr = ParquetRecordBatchReader::try_new(f, 1024).map_err(|e| format!("parquet reader: {e}"))?;
             let batches: Vec<RecordBatch> = rdr.collect::<Result<_, _>>().map_err(|e| format!("parquet batch: {e}"))?;
@@ -352,6 +391,7 @@ fn types_for(entry: Entry) -> &'static [Ty] {
         Entry::Csv => &[Ty::F32, Ty::F64, Ty::I32, Ty::Usize],
         Entry::Arrow | Entry::Parquet => &[Ty::F32, Ty::F64, Ty::I32],
         Entry::CsvTensor | Entry::ParquetTensor => &[Ty::F32, Ty::F64],
+        Entry::ParquetTensorOtherT => &[Ty::F32, Ty::F64, Ty::I32],
     }
 }
 
@@ -387,7 +427,7 @@ fn fault_case(rep: &mut Report, case: u64, g: &mut Sm64, ctx: &Ctx) {
                 let t = Tensor::<NdArray<f32>, 3>::from_data(TensorData::new(vals.clone(), [shape.0, shape.1, shape.2]), &Default::default());
                 save_csv_tensor(t, path)
             }
-            Entry::ParquetTensor => {
+            Entry::ParquetTensor | Entry::ParquetTensorOtherT => {
                 let t = Tensor::<NdArray<f32>, 3>::from_data(TensorData::new(vals.clone(), [shape.0, shape.1, shape.2]), &Default::default());
                 save_parquet_tensor::<NdArray<f32>, _, f32>(&t, path)
             }
@@ -434,6 +474,15 @@ pub fn run(ctx: &Ctx, rep: &mut Report) {
             let encode = g.chance(0.4);
             one(rep, "shapes", id, &mut g, ctx, entry, ty, shape, encode);
         }
+    }
+    for id in ctx.case_ids("typeargs", 120, 6000) {
+        let mut g = ctx.rng("typeargs", id);
+        let pick = |g: &mut Sm64, hi: usize| if g.chance(0.2) { *g.choose(&[0usize, 1, hi]) } else { g.range(1, hi) };
+        let shape = (pick(&mut g, 6), pick(&mut g, 20), pick(&mut g, 8));
+        let tys = types_for(Entry::ParquetTensorOtherT);
+        let ty = tys[g.below(tys.len())];
+        let encode = g.chance(0.2);
+        one(rep, "typeargs", id, &mut g, ctx, Entry::ParquetTensorOtherT, ty, shape, encode);
     }
     for id in ctx.case_ids("faults", 120, 30_000) {
         let mut g = ctx.rng("faults", id);
